@@ -156,6 +156,7 @@ class AsyncFIXConnection:
         self._port = int(port)
         self._aio_task_socket_read = None
         self._aio_task_heartbeat = None
+        self._is_disconnecting = False
 
     @property
     def connection_state(self) -> ConnectionState:
@@ -196,27 +197,41 @@ class AsyncFIXConnection:
             logout_message: if not None, sends Logout() message to peer with
                             (58=logout_message)
         """
-        if self._connection_state > ConnectionState.DISCONNECTED_BROKEN_CONN:
+        if (
+            self._connection_state > ConnectionState.DISCONNECTED_BROKEN_CONN
+            and not self._is_disconnecting
+        ):
             assert disconn_state <= ConnectionState.DISCONNECTED_BROKEN_CONN
-            self._test_req_id = None
-            self._message_last_time = 0.0
-            self._max_seq_num_resend = 0
+            # disconnect() suspends (Logout drain, wait_closed), and closing the
+            #  socket wakes socket_read_task up with EOF, which calls disconnect()
+            #  again: only one call must go through
+            self._is_disconnecting = True
+            try:
+                self._test_req_id = None
+                self._message_last_time = 0.0
+                self._max_seq_num_resend = 0
+                socket_writer = self._socket_writer
+                # stop reading from the socket
+                self._socket_reader = None
 
-            if logout_message is not None:
-                msg = FIXMessage(FMsg.LOGOUT)
-                if logout_message:
-                    # Only add message if logout_message != ""
-                    msg[FTag.Text] = logout_message
-                await self.send_msg(msg)
+                if logout_message is not None:
+                    msg = FIXMessage(FMsg.LOGOUT)
+                    if logout_message:
+                        # Only add message if logout_message != ""
+                        msg[FTag.Text] = logout_message
+                    await self.send_msg(msg)
 
-            self.log.info(f"Client disconnected, with state: {repr(disconn_state)}")
-            if self._socket_writer:
-                self._socket_writer.close()
-                await self._socket_writer.wait_closed()
-            self._socket_writer = None
-            self._socket_reader = None
-            await self._state_set(disconn_state)
-            await self.on_disconnect()
+                self.log.info(
+                    f"Client disconnected, with state: {repr(disconn_state)}"
+                )
+                if socket_writer:
+                    socket_writer.close()
+                    await socket_writer.wait_closed()
+                self._socket_writer = None
+                await self._state_set(disconn_state)
+                await self.on_disconnect()
+            finally:
+                self._is_disconnecting = False
 
     async def send_msg(self, msg: FIXMessage):
         """Sends message to the peer.
